@@ -4,6 +4,7 @@ import (
 	"encoding/json"
 	"fmt"
 	"reflect"
+	"sort"
 	"testing"
 
 	dynamicapply "metacontroller/pkg/dynamic/apply"
@@ -262,7 +263,50 @@ func genRandomTriple(c *vs.Case) c05Triple {
 	if c.Prob(1, 10) {
 		l = nil
 	}
+	if c.Prob(1, 8) {
+		// someone else's entries repeat a merge-key value (ports 53/TCP and 53/UDP): what the merge makes of
+		// such a list is unspecified, but it must not panic and must not touch its inputs
+		if dupListMapItem(c, o) {
+			c.Class("observed-with-repeated-merge-key")
+		}
+	}
 	return c05Triple{O: o, L: l, D: d}
+}
+
+// dupListMapItem finds a list of objects somewhere in v and repeats one item with another payload.
+func dupListMapItem(c *vs.Case, v any) bool {
+	switch t := v.(type) {
+	case map[string]any:
+		keys := make([]string, 0, len(t))
+		for k := range t {
+			keys = append(keys, k)
+		}
+		sort.Strings(keys)
+		for _, k := range keys {
+			if l, ok := t[k].([]any); ok && len(l) > 0 {
+				if it, ok := l[c.Int(len(l))].(map[string]any); ok && len(it) > 0 {
+					twin := vs.CopyMap(it)
+					twin["protocol"] = "UDP"
+					pos := c.Int(len(l) + 1)
+					nl := append([]any{}, l[:pos]...)
+					nl = append(nl, twin)
+					nl = append(nl, l[pos:]...)
+					t[k] = nl
+					return true
+				}
+			}
+			if dupListMapItem(c, t[k]) {
+				return true
+			}
+		}
+	case []any:
+		for _, x := range t {
+			if dupListMapItem(c, x) {
+				return true
+			}
+		}
+	}
+	return false
 }
 
 func TestVerifC05MergeRandom(t *testing.T) {
